@@ -250,6 +250,7 @@ pub fn construct_class(core: &str) -> Option<&'static str> {
         midchain: bool,
         bare_binder: bool,
         generic: bool,
+        partial_param: bool,
     }
     fn has_binder(m: &Match) -> bool {
         match m {
@@ -310,6 +311,9 @@ pub fn construct_class(core: &str) -> Option<&'static str> {
                     if !func.type_parameters.is_empty() {
                         f.generic = true;
                     }
+                    if matches!(&func.parameter_type, Some(Type::Tuple(tt)) if tt.is_partial) {
+                        f.partial_param = true;
+                    }
                     if let Some(b) = &func.body {
                         expr(b, f);
                     }
@@ -364,6 +368,8 @@ pub fn construct_class(core: &str) -> Option<&'static str> {
         Some("construct:recursive-type")
     } else if f.generic {
         Some("construct:generic-function")
+    } else if f.partial_param {
+        Some("construct:partial-typed-parameter")
     } else if f.bare_binder {
         Some("construct:nil-accepting-pattern")
     } else {
@@ -435,6 +441,34 @@ pub const PROBES: &[&str] = &[
     "f = #'int { =0 => 5 | [~, 1] __integer_subtract__ ^ }, 3 f",
     "g = #['int, 'int] { .0 }, f = #'int { [~, 1] ^g }, 3 f",
 ];
+
+/// Typed-context programs only (used by C02 as an additional universe): quick = typed atoms and
+/// one-node generic cores in every typed context instance; thorough = the full typed universe.
+pub fn typed_programs(thorough: bool) -> Vec<String> {
+    if thorough {
+        let (all, meta) = universe(true);
+        let typed = meta["typed_programs"].as_u64().unwrap_or(0) as usize;
+        return all.into_iter().skip(PROBES.len()).take(typed).chain(PROBES.iter().map(|s| s.to_string())).collect();
+    }
+    let mut g = progen::Gen::default();
+    let mut cores: Vec<String> = g.expr(1);
+    cores.extend(TYPED_ATOMS.iter().map(|s| s.to_string()));
+    for a in TYPED_ATOMS {
+        for b in TYPED_ATOMS {
+            cores.push(format!("{} => {}", a, b));
+        }
+    }
+    let mut out: Vec<String> = PROBES.iter().map(|s| s.to_string()).collect();
+    for (ctx, args) in TYPED_CONTEXTS {
+        for arg in *args {
+            let c = ctx.replace('@', arg);
+            for core in &cores {
+                out.push(c.replacen("{}", core, 1));
+            }
+        }
+    }
+    out
+}
 
 pub fn universe(thorough: bool) -> (Vec<String>, J) {
     let mut g = progen::Gen::default();
